@@ -14,32 +14,21 @@ Theorem C06_cancel_reaches_slot : forall s, stoppable s = true ->
   stopped s' = true /\ sstate s' = Stopped /\ (tracked s -> live s' = []).
 Proof. intros s. exact (cancel_reaches_slot cur s eq_refl eq_refl). Qed.
 
-(* Conditional form that holds today: when all live negotiation tasks of the transfer are held by
-   its slots at the moment of the call, nothing at all happens for the transfer afterwards (no
-   connect, no send, no field change) until a legitimate re-queue. *)
-Theorem C06_quiescent_after_stop_partial : forall s evs e,
-  tracked s -> stoppable s = true -> sremoved s = false -> In e [Abort; Pause; Remove] -> no_requeue evs = true ->
-  let s' := fst (step cur s e) in stopped s' = true /\ live s' = [] /\ after_stop_obs cur s' evs = [].
-Proof. intros s evs e. exact (quiescent_partial cur s evs e eq_refl eq_refl). Qed.
+(* The repaired code (SlotGen: every creation site skips a slot that holds an unfinished task, the
+   done-callbacks clear only their own task).  For every direction and EVERY event list: *)
 
-(* At most one negotiation per slot: false today.  W1: a second cycle while the first remote-queue
-   attempt is still connecting (download). *)
-Theorem C06_single_flight_refuted :
-  single_flight_b cur (init Down) W1 = false /\ n_live RQ (run cur (init Down) [Cycle; Start 0; Cycle]) = 2.
-Proof. vm_compute. auto. Qed.
+(* at most one live negotiation task per slot kind, at every point of the run *)
+Theorem C06_single_flight : forall d evs, single_flight_b cur (init d) evs = true.
+Proof. intros d evs. exact (proj1 (fix_characterisation cur eq_refl eq_refl d evs)). Qed.
 
-(* Nothing happens after abort returned: false today.
-   W1 (download): the attempt the slot no longer holds delivers PeerTransferQueue and sets remotely_queued.
-   W5 (download): the same attempt failing instead re-queues the ABORTED transfer.
-   W2 (upload): after a failed upload attempt is re-queued, the next cycle's task is overwritten out of
-   the slot by the old task's done-callback; abort cancels nothing and the upload goes on. *)
-Theorem C06_quiescent_after_stop_refuted :
-  after_stop_obs cur (init Down) W1 = [OSend 0; OField 0] /\
-  (after_stop_obs cur (init Down) W5 = [OField 0] /\ sstate (run cur (init Down) W5) = Queued) /\
-  (after_stop_obs cur (init Up) W2 = [OSend 1] /\ single_flight_b cur (init Up) W2 = true /\
-   slot_tr (run cur (init Up) [Cycle; Start 0; ConnFail 0; Cycle; DoneCb 0]) = None /\
-   n_live TR (run cur (init Up) [Cycle; Start 0; ConnFail 0; Cycle; DoneCb 0]) = 1).
-Proof. vm_compute. auto 10. Qed.
+(* every live task is the one its slot holds (so cancelling the transfer reaches all of it) *)
+Theorem C06_all_tasks_held : forall d evs, tracked (run cur (init d) evs).
+Proof. intros d evs. exact (proj2 (proj2 (fix_characterisation cur eq_refl eq_refl d evs))). Qed.
+
+(* while the transfer is stopped (abort/pause/remove returned, no legitimate re-queue yet) no task
+   connects, sends or changes a field of the transfer *)
+Theorem C06_quiescent_after_stop : forall d evs, after_stop_obs cur (init d) evs = [].
+Proof. intros d evs. exact (proj1 (proj2 (fix_characterisation cur eq_refl eq_refl d evs))). Qed.
 
 (* Exactly which discipline repairs it: for EVERY choice of the four flags (slots cancelled as today),
    if all creation sites skip a slot holding an unfinished task and the done-callbacks only clear
@@ -53,12 +42,12 @@ Theorem C06_fix_characterisation : forall f, c_rq f = true -> c_tr f = true ->
   else exists d evs, after_stop_obs f (init d) evs <> [].
 Proof. exact fix_characterisation. Qed.
 
-(* the code as it is: in the `else` branch *)
-Theorem C06_current_discipline : all_guards cur = false /\ c_rq cur = true /\ c_tr cur = true.
+(* the code as it is: in the `then` branch *)
+Theorem C06_current_discipline : all_guards cur = true /\ c_rq cur = true /\ c_tr cur = true.
 Proof. vm_compute. auto. Qed.
 
 (* non-vacuity *)
-Example C06_partial_nonvacuous :
+Example C06_stop_nonvacuous :
   let s := run cur (init Down) [Cycle; Start 0] in
   tracked s /\ stoppable s = true /\ sremoved s = false /\ live s <> [] /\
   after_stop_obs cur (fst (step cur s Abort)) [Cycle; Deliver 0; DoneCb 0; ConnFail 0] = [].
